@@ -241,6 +241,25 @@ def run_case(case, ctx):
             fail("dihedral %s is not a bonded chain" % (row.tolist(),), "dihedrals")
     st.count("angles_enumerated", len(ra))
     st.count("dihedrals_enumerated", len(rd))
+    # the same molecule somewhere further down a large structure: every atom index shifted by K (bond list as array and as tuples);
+    # the enumeration must be the shifted one
+    if case["s"] % 4 == 0:
+        K = [300, 1000, 70000, 257][case["s"] // 4 % 4]
+        for form in ("array", "tuples"):
+            bb = np.asarray(bonds, dtype=int) + K
+            arg = bb if form == "array" else [tuple(int(v) for v in r) for r in bb]
+            try:
+                sa = sorted(canon(tuple(int(v) - K for v in t)) for t in np.asarray(ru.calc_angles(arg)).reshape(-1, 3))
+                sd = sorted(canon(tuple(int(v) - K for v in t)) for t in np.asarray(ru.calc_dihedrals(arg)).reshape(-1, 4))
+            except Exception as e:
+                if type(e).__name__ == "PostBroken":
+                    raise
+                fail("enumeration of the same bonds with every index shifted by %d (%s) raised %s" % (K, form, type(e).__name__), "shifted_indices")
+                continue
+            st.count("enumerations_with_shifted_indices")
+            if sa != ra or sd != rd:
+                fail("with every atom index shifted by %d (bonds given as %s) the enumeration differs: %d angles / %d dihedrals instead of %d / %d" %
+                     (K, form, len(sa), len(sd), len(ra), len(rd)), "shifted_indices")
     # --- typing
     exs = set(exclude) if exclude is not None else set()
 
@@ -394,6 +413,8 @@ def run_case(case, ctx):
 
 def requirements(stats, tier):
     need = []
+    if stats.get("enumerations_with_shifted_indices") < (100 if tier == "quick" else 50000):
+        need.append("enumerations with shifted atom indices: %d" % stats.get("enumerations_with_shifted_indices"))
     if stats.get("graphs") < (350 if tier == "quick" else 250000):
         need.append("too few graphs: %d" % stats.get("graphs"))
     if stats.nseen("shape") < 5 or stats.nseen("type_source") < 3 or stats.nseen("exclude_class") < 3:
